@@ -50,7 +50,7 @@ func c03Check(c c03Case) error {
 			}
 		}
 	}
-	for _, cfg := range parseCfgs() {
+	for _, cfg := range parseCfgsSib(in) {
 		pj, err := parseWith(cfg, append([]byte(nil), in...), false)
 		if !finite {
 			if err == nil {
